@@ -513,7 +513,7 @@ class Analysis:
             ty = self.res.type_of(e, src) if hasattr(e, "_module") else None
         except Exception:
             ty = None
-        if ty is not None and ty[0] in ("list", "dict", "set", "deque", "tuple", "str"):
+        if ty is not None and ty[0] in ("list", "dict", "set", "deque", "tuple", "str", "bytes", "frozenset"):
             return ("empty(%s)" % tx(e), False)
         if isinstance(e, ast.Call) and isinstance(e.func, ast.Name) and e.func.id == "bool" and len(e.args) == 1:
             return self.atom(e.args[0], fi)
